@@ -9,12 +9,12 @@
 set -u
 PATCH="$(readlink -f "$1")"; TAG="$2"; shift 2
 WT="/tmp/seeded_${TAG}_$$"
-cd /verif
+cd "$(dirname "$(readlink -f "$0")")/.."; VROOT="$(pwd)"
 git -C /repo worktree add -q "$WT" HEAD || exit 3
 cleanup() {
   git -C /repo worktree remove --force "$WT" >/dev/null 2>&1
   H=$(python3 -c "import hashlib,sys;print(hashlib.sha1(sys.argv[1].encode()).hexdigest()[:8])" "$WT")
-  rm -rf /verif/target/*-"$H"
+  rm -rf "$VROOT"/target/*-"$H"
 }
 trap cleanup EXIT
 if ! git -C "$WT" apply "$PATCH"; then echo "SEEDED $TAG: patch does not apply"; exit 3; fi
